@@ -42,6 +42,36 @@ WITNESSES = [('useless_by_id', M_REF, {'k': 'RemoveUseless'}),
              ('surface_by_id', M_REF, {'k': 'Surface', 'remove': True})]
 
 
+# names the library itself stores derived results / caches under (FEMData.calculate_*,
+# extract_*, _clear_query_caches, _own_table(drop=...)): a user variable of such a name is data
+NODAL_RESERVED = ['normal', 'degree', 'jacobian', 'volume', 'area', 'metric', 'edge_lengths', 'angles', 'node',
+                  'filter', 'surface']
+ELEMENTAL_RESERVED = ['volume', 'area', 'metric', 'normal', 'jacobian', 'edge_lengths', 'angles', 'face', 'degree',
+                      'element', 'facet']
+
+
+def var_name(m, kind, k):
+    names = m.get(kind + '_names')
+    for j, v in enumerate(m[kind]):
+        if v[0] == k:
+            return names[j] if names else ('v' if kind == 'nodal' else 'e') + str(k)
+    return None
+
+
+def dropped_by(c):
+    """the in-place modification / conversion of the history that runs FEMData._clear_query_caches or
+    _own_table(drop=...) (they drop elemental variables BY NAME)"""
+    k = c['op']['k']
+    hist = [e['k'] for e in (c.get('pre') or []) + (c.get('mid') or [])]
+    if k == 'RemoveUseless' or (c.get('first') or {}).get('k') == 'RemoveUseless' or 'useless' in hist:
+        return 'remove_useless_nodes'
+    if 'conn' in hist:
+        return 'elements.data='
+    if k == 'FirstOrder':
+        return 'to_first_order'
+    return None
+
+
 # --------------------------------------------------------------- generator
 def gen_mesh(rng):
     kind = rng.choice(['hex', 'mix', 'mix', 'tet', 'tet2', 'hex2', 'soup', 'soup', 'shell', 'prism',
@@ -211,6 +241,15 @@ def gen_mesh(rng):
             eb.append([t, ids2, [[(i % 100003) * 10 + k * 1000003 + j + 5 for j in range(w)] for i in ids2]])
         if eb:
             elemental.append([k, eb, tail])
+    # names: mostly neutral, sometimes the names the library uses for its own derived results / caches
+    def pick(prefix, entries, reserved):
+        names = []
+        for e in entries:
+            free = [x for x in reserved if x not in names]
+            names.append(rng.choice(free) if free and rng.random() < 0.3 else f'{prefix}{e[0]}')
+        return names
+    nodal_names = pick('v', nodal, NODAL_RESERVED)
+    elemental_names = pick('e', elemental, ELEMENTAL_RESERVED)
     dtypes = {'xyz': rng.choice(['float64', 'float64', 'float32', 'int64', 'int32']),
               'nodal': [rng.choice(['float64', 'float64', 'int64', 'float32', 'bool']) for _ in nodal]}
     for (k, ids, rows, tail), dt in zip(nodal, dtypes['nodal']):
@@ -218,6 +257,7 @@ def gen_mesh(rng):
             for r_ in rows:
                 r_[:] = [v % 2 for v in r_]
     return {'dtypes': dtypes, 'nodes': nodes, 'elems': blocks, 'nodal': nodal, 'elemental': elemental, 'kind': kind,
+            'nodal_names': nodal_names, 'elemental_names': elemental_names,
             'idmode': mode, 'var_modes': var_modes, 'n_extra': n_extra}
 
 
@@ -766,7 +806,8 @@ def oracle(m, op, r):
     for kk in var0:
         # variables defined on a part of the nodes are outside the property (femio skips them)
         if kk not in seen and m['var_modes'][kk] != 'subset' and any(i in var0[kk] for i in rn_ids):
-            bad.append(('nodal-variable-dropped', {'var': kk, 'order': m['var_modes'][kk]}))
+            bad.append(('nodal-variable-dropped', {'var': kk, 'order': m['var_modes'][kk],
+                                                   'name': var_name(m, 'nodal', kk)}))
     # elemental variables (kept by the operations that keep elements)
     ev0 = {kk: {i: (t, row) for t, ids, rows in bs for i, row in zip(ids, rows)} for kk, bs, _ in m['elemental']}
     if k not in ('Surface', 'Facets'):
@@ -783,7 +824,7 @@ def oracle(m, op, r):
                     bad.append(('elemental-variable-on-other-elements', {'var': kk}))
         for kk in ev0:
             if kk not in seen and any(i in ev0[kk] for i in rel):
-                bad.append(('elemental-variable-dropped', {'var': kk}))
+                bad.append(('elemental-variable-dropped', {'var': kk, 'name': var_name(m, 'elemental', kk)}))
     if k == 'Surface' and 'boundary' in r:
         got = sorted(sorted(c) for _, c in rel.values())
         if got != sorted(r['boundary']):
@@ -1033,6 +1074,7 @@ def main(ctx):
     # property oracle on the implementation
     n_or = 0
     oracle_bad = set()
+    name_drops = {}
     for c in usable:
         r = res[c['id']]
         for what, detail in oracle(edited(c['mesh'], c['pre'] + c['mid']), c['op'], r):
@@ -1048,7 +1090,14 @@ def main(ctx):
                 sig['after_call_of'] = OPNAME.get(c['first']['k'], c['first']['k'])
             if c['mid']:
                 sig['edited_between_calls'] = '+'.join(sorted({e['k'] for e in c['mid']}))
-            if hist_tag(c):
+            nm = detail.get('name') if isinstance(detail, dict) else None
+            if what == 'elemental-variable-dropped' and nm in ELEMENTAL_RESERVED and dropped_by(c):
+                # one finding per (site that drops by name, name), whatever operation shows it
+                sig = {'what': what, 'variable_name': nm, 'dropped_by': dropped_by(c)}
+                name_drops.setdefault(c['id'], sig)
+            elif nm and (nm in ELEMENTAL_RESERVED or nm in NODAL_RESERVED):
+                sig['variable_name'] = nm
+            if hist_tag(c) and 'dropped_by' not in sig:
                 sig['history'] = hist_tag(c)
                 sig.pop('edited_between_calls', None)
                 sig.pop('what', None)       # one finding per (operation, earlier call), whatever shows first
@@ -1086,7 +1135,15 @@ def main(ctx):
                                           'after_call_of': OPNAME.get(c['first']['k'], c['first']['k'])},
                                          **({'history': hist_tag(c)} if hist_tag(c) else {})),
                           what=f"{OPNAME[c['op']['k']]} raises after {c['first']['k']} on the same object")
-    for cid, codes in sorted(bad.items())[:6]:
+    plain = [(cid, codes) for cid, codes in sorted(bad.items()) if not (cid in name_drops and codes == [6])]
+    for cid, codes in sorted(bad.items()):
+        if cid in name_drops and codes == [6]:
+            c = cases[cid]
+            ctx.violation('correspondence', case_of(c), 'model and implementation return the same mesh',
+                          {'differs_in': [CODES[6]], 'impl': res[cid]}, 'correspondence C09 (Corr.check)',
+                          found_input=True, signature=dict(name_drops[cid], kind='correspondence'),
+                          what='model and implementation differ (an elemental variable is dropped by name)')
+    for cid, codes in plain[:6]:
         c = cases[cid]
         ctx.violation('correspondence', case_of(c),
                       'model and implementation return the same mesh',
